@@ -45,6 +45,7 @@ func vhBase(t dag.OperationType, a int, n int) dag.OpBase {
 type refComment struct {
 	target  entity.Id
 	message string
+	file    repository.Hash // the attached file, "" = none
 }
 
 type refState struct {
@@ -56,6 +57,17 @@ type refState struct {
 	parts    []entity.Id
 	timeline int
 	edits    map[entity.Id]int // target -> number of entries in its edit history
+}
+
+var vhFiles = []repository.Hash{"1111111111111111111111111111111111111111", "2222222222222222222222222222222222222222", "3333333333333333333333333333333333333333"}
+
+// vhPickFiles: no file, or the blob that belongs to operation number j.
+func vhPickFiles(j int) ([]repository.Hash, repository.Hash) {
+	if rt.Choose(2) == 0 {
+		return nil, ""
+	}
+	f := vhFiles[j%len(vhFiles)]
+	return []repository.Hash{f}, f
 }
 
 func (r *refState) addId(list *[]entity.Id, id entity.Id) {
@@ -76,10 +88,11 @@ func VH_C10_sequence() {
 	ref := &refState{status: common.OpenStatus, edits: map[entity.Id]int{}}
 	// create
 	title0 := rt.NondetStringN(1)
-	create := &CreateOperation{OpBase: vhBase(CreateOp, 0, 0), Title: title0, Message: "m0"}
+	files0, file0 := vhPickFiles(0)
+	create := &CreateOperation{OpBase: vhBase(CreateOp, 0, 0), Title: title0, Message: "m0", Files: files0}
 	b.Append(create)
 	ref.title = title0
-	ref.comments = []refComment{{create.Id(), "m0"}}
+	ref.comments = []refComment{{target: create.Id(), message: "m0", file: file0}}
 	ref.addId(&ref.actors, vhAuthors[0].id)
 	ref.addId(&ref.parts, vhAuthors[0].id)
 	ref.timeline = 1
@@ -92,9 +105,10 @@ func VH_C10_sequence() {
 		switch rt.Choose(7) {
 		case 0:
 			msg := fmt.Sprintf("m%d", j)
-			op := &AddCommentOperation{OpBase: vhBase(AddCommentOp, a, j), Message: msg}
+			fs, f := vhPickFiles(j)
+			op := &AddCommentOperation{OpBase: vhBase(AddCommentOp, a, j), Message: msg, Files: fs}
 			b.Append(op)
-			ref.comments = append(ref.comments, refComment{op.Id(), msg})
+			ref.comments = append(ref.comments, refComment{target: op.Id(), message: msg, file: f})
 			ref.addId(&ref.actors, aid)
 			ref.addId(&ref.parts, aid)
 			ref.timeline++
@@ -117,12 +131,14 @@ func VH_C10_sequence() {
 				rt.Cover("edit-non-comment-target")
 			}
 			msg := fmt.Sprintf("e%d", j)
-			op := &EditCommentOperation{OpBase: vhBase(EditCommentOp, a, j), Target: target, Message: msg}
+			fs, f := vhPickFiles(j)
+			op := &EditCommentOperation{OpBase: vhBase(EditCommentOp, a, j), Target: target, Message: msg, Files: fs}
 			b.Append(op)
 			if kind == 0 {
 				for c := range ref.comments {
 					if ref.comments[c].target == target {
 						ref.comments[c].message = msg
+						ref.comments[c].file = f
 					}
 				}
 				ref.addId(&ref.actors, aid)
@@ -221,6 +237,12 @@ func VH_C10_sequence() {
 		if i < len(snap.Comments) {
 			rt.Assert(snap.Comments[i].TargetId() == ref.comments[i].target, "comment-order")
 			rt.Assert(snap.Comments[i].Message == ref.comments[i].message, "comment-text-is-latest-edit")
+			wantFile := ref.comments[i].file
+			if wantFile == "" {
+				rt.Assert(len(snap.Comments[i].Files) == 0, "comment-files-are-those-of-the-latest-edit")
+			} else {
+				rt.Assert(len(snap.Comments[i].Files) == 1 && snap.Comments[i].Files[0] == wantFile, "comment-files-are-those-of-the-latest-edit")
+			}
 			rt.Assert(snap.Comments[i].CombinedId() == entity.CombineIds(snap.Id(), ref.comments[i].target), "comment-combined-id")
 		}
 	}
@@ -236,8 +258,24 @@ func VH_C10_sequence() {
 		switch t := it.(type) {
 		case *CreateTimelineItem:
 			rt.Assert(len(t.History) == ref.edits[create.Id()], "create-edit-history")
+			rt.Assert(t.Message == ref.comments[0].message, "timeline-entry-shows-the-latest-text")
+			if ref.comments[0].file == "" {
+				rt.Assert(len(t.Files) == 0, "timeline-entry-shows-the-latest-files")
+			} else {
+				rt.Assert(len(t.Files) == 1 && t.Files[0] == ref.comments[0].file, "timeline-entry-shows-the-latest-files")
+			}
 		case *AddCommentTimelineItem:
-			_ = t
+			for _, rc := range ref.comments {
+				if entity.CombineIds(snap.Id(), rc.target) == t.CombinedId() {
+					rt.Assert(len(t.History) == ref.edits[rc.target], "comment-edit-history")
+					rt.Assert(t.Message == rc.message, "timeline-entry-shows-the-latest-text")
+					if rc.file == "" {
+						rt.Assert(len(t.Files) == 0, "timeline-entry-shows-the-latest-files")
+					} else {
+						rt.Assert(len(t.Files) == 1 && t.Files[0] == rc.file, "timeline-entry-shows-the-latest-files")
+					}
+				}
+			}
 		}
 	}
 	rt.Assert(len(snap.Operations) == n+1, "all-operations-recorded")
